@@ -134,6 +134,37 @@ Theorem C07_search_prediction_real : forall n sl0 t ao ts tov tsl oracles k c,
 Proof. exact search_prediction_real. Qed.
 Print Assumptions C07_search_prediction_real.
 
+(* search(..., target_size=, target_overhead=, target_slices=): the per-call arguments go to
+   BOTH the trials and best (each resolves them with _maybe_default: a given argument wins over
+   the construction-time attribute), and the cache of the object persists across calls.  For
+   every call, after any earlier calls (any cache_ok cache), and every oracle: the returned set
+   satisfies the targets OF THE CALL, its prediction is real, forbidden indices are absent. *)
+Theorem C07_search_call_meets_call_targets : forall fd ots otov otsl oracles ch ch' k c, cache_ok fd ch ->
+  search_call fd ots otov otsl oracles ch = Ret (ch', (k, c)) ->
+  cache_ok fd ch' /\ entry_ok fd (k, c) /\ call_targets_hold fd ots otov otsl c /\
+  (exists xs, remove_seq xs (f_cost0 fd) = Some c /\ (forall j, In j k <-> In j xs) /\
+              forall j, In j xs -> ~ In j (f_forbidden fd)).
+Proof. exact search_call_spec. Qed.
+Print Assumptions C07_search_call_meets_call_targets.
+
+Theorem C07_search_call_prediction_real : forall n sl0 t ao ts tov tsl ots otov otsl oracles ch ch' k c,
+  tree_ok n sl0 t -> sd_pos (szd n) -> NoDup (zd_keys (szd n)) ->
+  let fd := finder_of_tree n sl0 t ao ts tov tsl in
+  cache_ok fd ch ->
+  search_call fd ots otov otsl oracles ch = Ret (ch', (k, c)) ->
+  cache_ok fd ch' /\
+  exists xs, (forall j, In j k <-> In j xs) /\ NoDup xs /\
+    let sl := sl0 ++ slice_all xs in
+    c_nsl c * multiplicity n sl0 = multiplicity n sl /\
+    cc_total_flops c * multiplicity n sl0 = total_flops n sl t /\
+    match cc_size c with Some s => s | None => 0 end = max_size n sl t /\
+    c_orig c = sum_flops n sl0 t /\
+    call_targets_hold fd ots otov otsl c /\
+    (forall j, In j xs -> ~ In j (removed sl0) /\ In j (zd_keys (szd n)) /\
+       (ao = AoFalse -> ~ In j (output n)) /\ (ao = AoOnly -> In j (output n))).
+Proof. exact search_call_prediction_real. Qed.
+Print Assumptions C07_search_call_prediction_real.
+
 Theorem C07_tree_ok_from_root : forall n sl t, NoDup (output n) ->
   incl (lkeys (root_legs n sl)) (lkeys (involved n sl t)) -> tree_ok n sl t.
 Proof. exact tree_ok_from_root. Qed.
@@ -281,3 +312,19 @@ Example C07_nonvacuous_overhead :
                            (Some (2476979795053773%Z, 2251799813685248%Z)) None) [[1; 0; 2; 3]])
      = (0, Some ([0; 1; 2], (Some 1%Z, (72%Z, 12%Z)))).
 Proof. repeat split; vm_compute; reflexivity. Qed.
+
+(* per-call overrides are not vacuous: constructed with target_size = 12 (already met by the
+   unsliced tree), search(target_size = 2) slices down to size 2 and returns that set, not the
+   empty slicing that only meets the construction-time target *)
+Example C07_nonvacuous_override :
+  match search_call (finder_of_tree ex_n [] ex_t AoTrue (Some 12%Z) None None) (Some 2%Z) None None
+                    [[1; 0]] (cache0 (finder_of_tree ex_n [] ex_t AoTrue (Some 12%Z) None None)) with
+  | Ret (_, (k, c)) => k = [0; 1] /\ cc_size c = Some 2%Z
+  | _ => False
+  end
+  /\ match search_call (finder_of_tree ex_n [] ex_t AoTrue (Some 12%Z) None None) None None None
+                    [[1; 0]] (cache0 (finder_of_tree ex_n [] ex_t AoTrue (Some 12%Z) None None)) with
+  | Ret (_, (k, c)) => k = [] /\ cc_size c = Some 12%Z
+  | _ => False
+  end.
+Proof. vm_compute. repeat split; reflexivity. Qed.
